@@ -68,6 +68,17 @@ def dist_strategy(kind):
         hi = c + draw(st.floats(0.3, 3.0)) * s
         if kind in ("refl", "loss"):
             lo, hi = max(0.0, lo), min(1.0, hi)
+        side = draw(st.sampled_from(["both", "both", "both", "min-only", "max-only", "none"]))
+        if side != "both":
+            # an open side must be harmless by itself: >= 10 sigma away from the physical limit of the quantity,
+            # so that an unbounded draw is never an invalid reflectivity / loss (probability < 1e-22 per draw)
+            if kind in ("refl", "loss"):
+                s = min(s, c / 10, (1 - c) / 10)
+                lo, hi = max(lo, c - 3 * s), min(hi, c + 3 * s)
+            if side in ("max-only", "none"):
+                lo = None
+            if side in ("min-only", "none"):
+                hi = None
         return ["gaussian", c, s, lo, hi]
 
     @st.composite
@@ -122,7 +133,8 @@ def make_dist(d):
     if d[0] == "constant":
         return dists.Constant(d[1]), (d[1], d[1])
     if d[0] == "gaussian":
-        return dists.Gaussian(d[1], d[2], min_value=d[3], max_value=d[4]), (d[3], d[4])
+        b = (-math.inf if d[3] is None else d[3], math.inf if d[4] is None else d[4])
+        return dists.Gaussian(d[1], d[2], min_value=d[3], max_value=d[4]), b
     return dists.TopHat(d[1], d[2]), (d[1], d[2])
 
 
